@@ -29,7 +29,19 @@ def load_detector(detector: Detector, filename: str | Path) -> None:
             f" '{type(detector).__name__}', expected '{type(new_detector).__name__}'"
         )
 
-    detector = new_detector
+    # Replace the data buckets of the running detector by the loaded ones
+    for name in (
+        "_scene",
+        "_photon",
+        "_charge",
+        "_pixel",
+        "_signal",
+        "_image",
+        "_data",
+        "_phase",
+    ):
+        if hasattr(new_detector, name):
+            setattr(detector, name, getattr(new_detector, name))
 
 
 def save_detector(detector: Detector, filename: str | Path) -> None:
